@@ -82,17 +82,14 @@ def _inplace_offenders(fd):
         for n in body_nodes:
             if isinstance(n, ast.Assign) and len(n.targets) == 1 and isinstance(n.targets[0], ast.Name):
                 v = n.value
-                src = None
-                if isinstance(v, ast.Name): src = v.id
-                elif isinstance(v, ast.Call) and ast.unparse(v.func) in ('np.asarray', 'numpy.asarray', 'np.asanyarray') and v.args and isinstance(v.args[0], ast.Name): src = v.args[0].id
+                src = _view_source(v)
                 if src in alias and n.targets[0].id not in alias:
                     # only if every definition of the target is such an alias (a name that is also bound to a fresh value elsewhere is not tracked)
                     defs = [a for a in body_nodes if isinstance(a, ast.Assign) and any(isinstance(t, ast.Name) and t.id == n.targets[0].id for t in a.targets)]
-                    if all(a is n or (isinstance(a.value, ast.Name) and a.value.id in alias) for a in defs):
+                    if all(a is n or (_view_source(a.value) in alias) for a in defs):
                         alias.add(n.targets[0].id); changed = True
     fresh_rebound = {t.id for n in body_nodes if isinstance(n, ast.Assign) for t in n.targets if isinstance(t, ast.Name)
-                     and not (isinstance(n.value, ast.Name) and n.value.id in alias)
-                     and not (isinstance(n.value, ast.Call) and ast.unparse(n.value.func) in ('np.asarray', 'numpy.asarray', 'np.asanyarray'))}
+                     and not (_view_source(n.value) in alias)}
     for n in body_nodes:
         if isinstance(n, ast.AugAssign) and isinstance(n.target, ast.Name) and n.target.id in alias:
             if n.target.id in params and n.target.id in fresh_rebound and any(isinstance(a, ast.Assign) and a.lineno < n.lineno and any(isinstance(t, ast.Name) and t.id == n.target.id for t in a.targets)
@@ -113,6 +110,39 @@ def _inplace_offenders(fd):
                     out.append((n.lineno, ast.unparse(n)[:60], kw.value.id))
     fd._vs_alias = alias
     return out
+
+
+_VIEW_FUNCS = ('asarray', 'asanyarray', 'ascontiguousarray', 'asfortranarray', 'atleast_1d', 'atleast_2d', 'atleast_3d', 'real', 'imag', 'ravel', 'reshape', 'squeeze', 'transpose',
+               'swapaxes', 'moveaxis', 'expand_dims', 'view')
+_VIEW_ATTRS = ('real', 'imag', 'T', 'flat')
+
+
+def _view_source(v):
+    """name of the array that expression v is (or may be) a view of: the name itself, numpy calls and methods that hand back the same memory when they can (np.asarray of an
+    array of the right type, np.real / np.imag / .real / .imag of a complex array, reshape / ravel / transpose / squeeze of a contiguous one), and basic indexing (slices, integers,
+    Ellipsis, None).  With numpy arrays an in-place update of such a value writes into the source."""
+    for _ in range(6):
+        if isinstance(v, ast.Name):
+            return v.id
+        if isinstance(v, ast.Attribute) and v.attr in _VIEW_ATTRS:
+            v = v.value; continue
+        if isinstance(v, ast.Call):
+            fn = ast.unparse(v.func)
+            tail = fn.split('.')[-1]
+            if tail in _VIEW_FUNCS:
+                if fn.split('.')[0] in ('np', 'numpy') and v.args:
+                    v = v.args[0]; continue
+                if isinstance(v.func, ast.Attribute) and fn.split('.')[0] not in ('np', 'numpy'):
+                    v = v.func.value; continue
+            return None
+        if isinstance(v, ast.Subscript):
+            idx = v.slice.elts if isinstance(v.slice, ast.Tuple) else [v.slice]
+            if any(isinstance(i_, ast.Slice) or (isinstance(i_, ast.Constant) and i_.value in (Ellipsis, None)) for i_ in idx) and \
+                    all(isinstance(i_, ast.Slice) or (isinstance(i_, ast.Constant) and (i_.value in (Ellipsis, None) or isinstance(i_.value, int))) for i_ in idx):
+                v = v.value; continue
+            return None
+        return None
+    return None
 
 
 def _escaping_names(fd):
